@@ -305,7 +305,7 @@ pub fn run(rep: &mut Rep) {
         drops: true,
         ..Default::default()
     };
-    let depth = if rep.quick() { 5 } else { 7 };
+    let depth = if rep.quick() { 5 } else { 8 };
     rep.note(&format!("connect/authorize: all 22 CONNACK reasons x property sets, AUTH challenge, EOF / read error after every prefix of the response, write error; run(): all 28 server DISCONNECT reasons x 3 forms x properties x 5 session states; causes {{user DISCONNECT, EOF, read error, write error, undecodable input, all handles dropped}} x 5 states x with/without requests queued behind the cause; exhaustive paths of <= {depth} actions with the cause injected at every point and the context optionally held so that requests queue behind it"));
     let seed = rep.seed;
     explore_world(rep, "exh", depth, &move || World::boot(WorldCfg { seed, ..Default::default() }), &a);
